@@ -93,6 +93,13 @@ type replayFile struct {
 // Main is the entry point of a model-checking harness binary.
 func Main(h Harness) {
 	args := lib.ParseArgs()
+	mcrt.StallAfter = 90 * time.Second
+	if v := os.Getenv("VERIF_STALL_SECONDS"); v != "" {
+		var n int
+		if _, err := fmt.Sscan(v, &n); err == nil && n > 0 {
+			mcrt.StallAfter = time.Duration(n) * time.Second
+		}
+	}
 	scenarios := h.Scenarios(args.Tier)
 	if args.Worker {
 		w := &workerState{h: h, scenarios: scenarios, states: map[int]map[uint64]struct{}{}}
@@ -157,7 +164,8 @@ func Main(h Harness) {
 			maxLevels = len(sc.Levels)
 		}
 	}
-	for li := 0; li < maxLevels; li++ {
+	stalledRoot := false
+	for li := 0; li < maxLevels && !stalledRoot; li++ {
 		for si, sc := range scenarios {
 			if li >= len(sc.Levels) || stopped[si] {
 				continue
@@ -185,6 +193,18 @@ func Main(h Harness) {
 				return true
 			}
 			root, subtrees := e.Root()
+			if root.Status == mcrt.StStalled {
+				// this process cannot execute anything any more: report what is known and stop
+				if f, ok := stallFinding(root); ok {
+					rep.ViolateN(toViolation(foundViolation{Finding: f, Scenario: sc.Name, Choices: root.Choices, Bounds: lv, Count: 1}))
+				} else {
+					rep.InfraError(sc.Name + ": an execution stopped making progress outside the code under test\n" + clipStacks(root.StallStacks))
+				}
+				st.Capped = lv.String() + " (the default execution stalled)"
+				exhaustive = false
+				stalledRoot = true
+				break
+			}
 			outcomes[rootOutcome]++
 			for k := range e.Stats.States {
 				states[k] = struct{}{}
@@ -367,9 +387,33 @@ type workerState struct {
 	scenarios []Scenario
 	states    map[int]map[uint64]struct{}
 	deadline  time.Time
+	retired   bool // an execution stalled in this process: no further task is run here
+}
+
+// stallFinding: an execution whose running thread never reached its next scheduling point. If the stuck goroutine is
+// inside the module under test this is a busy loop there (a caller never returns, and no lock or channel is involved);
+// otherwise it is the harness or the machine.
+func stallFinding(r *mcrt.Result) (Finding, bool) {
+	site := lib.HangSite(r.StallStacks)
+	if site == "" {
+		return Finding{}, false
+	}
+	return Finding{Signature: "an execution never reaches its next synchronisation point (busy loop) in " + site,
+		Detail: fmt.Sprintf("no scheduling point for %s of real time after %d steps; the goroutine is still running:\n%s", mcrt.StallAfter, r.Steps, clipStacks(r.StallStacks))}, true
+}
+
+func clipStacks(s string) string {
+	if len(s) > 6000 {
+		return s[:6000] + "\n..."
+	}
+	return s
 }
 
 func (w *workerState) handle(raw json.RawMessage) any {
+	if w.retired {
+		fmt.Fprintln(os.Stderr, lib.WorkerRetired)
+		os.Exit(0)
+	}
 	var t task
 	if err := json.Unmarshal(raw, &t); err != nil {
 		return taskResult{Infra: []string{"bad task: " + err.Error()}}
@@ -384,7 +428,16 @@ func (w *workerState) handle(raw json.RawMessage) any {
 		w.states[t.Scenario] = known
 		// first task of this scenario in this process: one default execution that is thrown away, so that whatever the
 		// code under test builds lazily and keeps for the life of the process exists before executions are recorded
-		mcrt.Run(nil, e.Body, mcrt.RunOpts{MaxSteps: e.MaxSteps, Races: e.Races})
+		if wr := mcrt.Run(nil, e.Body, mcrt.RunOpts{MaxSteps: e.MaxSteps, Races: e.Races}); wr.Status == mcrt.StStalled {
+			w.retired = true
+			res := taskResult{Outcomes: map[string]int{}, Capped: true}
+			if f, ok := stallFinding(wr); ok {
+				res.Violations = append(res.Violations, foundViolation{Finding: f, Scenario: sc.Name, Choices: wr.Choices, Bounds: lv, Count: 1})
+			} else {
+				res.Infra = append(res.Infra, "an execution stopped making progress outside the code under test\n"+clipStacks(wr.StallStacks))
+			}
+			return res
+		}
 	}
 	e.Stats.States = map[uint64]struct{}{}
 	res := taskResult{Outcomes: map[string]int{}}
@@ -392,6 +445,15 @@ func (w *workerState) handle(raw json.RawMessage) any {
 	e.Check = func(r *mcrt.Result) bool {
 		if r.Status == mcrt.StInfra {
 			return true // recorded by the explorer
+		}
+		if r.Status == mcrt.StStalled {
+			w.retired = true
+			if f, ok := stallFinding(r); ok {
+				res.Violations = append(res.Violations, foundViolation{Finding: f, Scenario: sc.Name, Choices: r.Choices, Bounds: lv, Count: 1})
+			} else {
+				res.Infra = append(res.Infra, "an execution stopped making progress outside the code under test\n"+clipStacks(r.StallStacks))
+			}
+			return false
 		}
 		if len(r.Races) > 0 || sc.Races {
 			res.Races++
